@@ -15,7 +15,7 @@ pub fn prop() -> Prop {
         rule: "streams of <=2 values over the 75-value universe U1 and <=3 (thorough <=4) over a 12-value core, every legal separator (whitespace menu or touching), spelling deviations k=0,1 (thorough 2) per value from the whitespace/escape/number menus; non-trivial = >=2 values, or a non-default spelling, or touching tokens; cases are distinct by construction",
         explanation: "bounded-exhaustive enumeration of conforming serialisations; jawk (no options) is run on each and stdout is read back with an independent strict RFC 8259 reader and compared value by value with the reference parse of the input",
         assumptions,
-        guards: vec!["touching-tokens", "upper-case-exponent", "escape-variant", "multi-value", "depth-64"],
+        guards: vec!["size-thresholds", "touching-tokens", "upper-case-exponent", "escape-variant", "multi-value", "depth-64"],
         budget_s: (100, 1500),
         single_worker: false,
         run,
@@ -392,4 +392,73 @@ fn run(ctx: &mut Ctx) {
         check(ctx, s, &vals, true);
     }
     ctx.level_done("E:deep-deviations,nesting<=64,empty,long");
+
+    // level F: size thresholds. Buffers, tables and fast paths change behaviour beyond a size, not beyond a shape.
+    const SIZES: [usize; 24] = [15, 16, 17, 31, 32, 33, 63, 64, 65, 127, 128, 129, 255, 256, 257, 1023, 1024, 1025, 4095, 4096, 4097, 8191, 8192, 8193];
+    for n in SIZES {
+        if !ctx.mine() {
+            continue;
+        }
+        ctx.guard("size-thresholds");
+        // strings of n characters with a special character first / last (raw and escaped spellings)
+        for (raw, spelled) in [("a", "a"), ("é", "é"), ("é", "\\u00e9"), ("\u{2028}", "\u{2028}"), ("\"", "\\\""), ("\\", "\\\\"), ("A", "\\u0041"), ("\n", "\\n"), ("\u{ffff}", "\\uFFFF")] {
+            let body = "a".repeat(n - 1);
+            for first in [false, true] {
+                let (val, txt) = if first { (format!("{raw}{body}"), format!("{spelled}{body}")) } else { (format!("{body}{raw}"), format!("{body}{spelled}")) };
+                let v = V::Str(val.clone());
+                check(ctx, format!("\"{txt}\""), &[&v], true);
+                let o = V::Obj(vec![(val.clone(), V::int(1))]);
+                check(ctx, format!("{{\"{txt}\":1}}"), &[&o], true);
+                let a = V::Arr(vec![v.clone(), v.clone()]);
+                check(ctx, format!("[\"{txt}\",\"{txt}\"]\"{txt}\""), &[&a, &v], true);
+            }
+        }
+        // arrays and objects with n members
+        if n <= 1025 {
+            let arr = V::Arr((0..n).map(|i| V::int(i as i128)).collect());
+            let atxt = format!("[{}]", (0..n).map(|i| i.to_string()).collect::<Vec<_>>().join(","));
+            check(ctx, atxt.clone(), &[&arr], true);
+            let obj = V::Obj((0..n).map(|i| (format!("k{i}"), V::int(i as i128))).collect());
+            let otxt = format!("{{{}}}", (0..n).map(|i| format!("\"k{i}\":{i}")).collect::<Vec<_>>().join(","));
+            check(ctx, format!("{otxt}{atxt}"), &[&obj, &arr], true);
+        }
+        // streams of n small values, touching where they may
+        let vals: Vec<V> = (0..n).map(|i| match i % 4 { 0 => V::int(i as i128), 1 => V::Arr(vec![]), 2 => V::s("s"), _ => V::Obj(vec![]) }).collect();
+        let mut txt = String::new();
+        for (i, v) in vals.iter().enumerate() {
+            txt.push_str(&to_text(v));
+            if i % 4 == 0 || i % 4 == 3 {
+                txt.push(if i % 8 < 4 { ' ' } else { '\n' });
+            }
+        }
+        let refs: Vec<&V> = vals.iter().collect();
+        check(ctx, txt, &refs, true);
+    }
+    // numbers with many digits (nearest double / exact integers), in and out of arrays
+    if ctx.mine() {
+        let mut lits: Vec<String> = Vec::new();
+        for d in [15usize, 16, 17, 18, 19, 20, 21, 22, 25, 40, 100, 308, 309, 400] {
+            lits.push("9".repeat(d));
+            lits.push(format!("1{}", "0".repeat(d)));
+            lits.push(format!("-{}", "123456789".repeat(d / 9 + 1)[..d].to_string()));
+            lits.push(format!("0.{}", "123456789".repeat(d / 9 + 1)[..d].to_string()));
+            lits.push(format!("0.{}1", "0".repeat(d)));
+            lits.push(format!("{}.{}", "9".repeat(d.min(17)), "9".repeat(d)));
+            lits.push(format!("1e{}", d.min(308)));
+            lits.push(format!("1E-{}", d.min(323)));
+            lits.push(format!("{}e-{}", "9".repeat(d), d));
+        }
+        for (a, b) in [("950223949682658.5", "12.380196114964559"), ("9007199254740993", "9007199254740992.5"), ("0.1", "0.30000000000000004"), ("5e-324", "2.2250738585072014e-308"), ("1.7976931348623157e308", "123456789012345678")] {
+            lits.push(a.to_string());
+            lits.push(b.to_string());
+        }
+        for l in lits {
+            if l.parse::<f64>().map(|f| f.is_finite()).unwrap_or(false) {
+                let v = json::parse_str(&l);
+                let a = V::Arr(vec![v.clone()]);
+                check(ctx, format!("{l} [{l}]"), &[&v, &a], true);
+            }
+        }
+    }
+    ctx.level_done("F:size-thresholds(strings,containers,streams-to-8193;numbers-to-400-digits)");
 }
